@@ -1100,6 +1100,69 @@ def inline_predicate(fb, call):
     return substitute(e, {p["decl"]: a for p, a in zip(g.params, args)})
 
 
+def current_definition(fn, ref):
+    """For a use `ref` of a local with exactly one definition: that definition's initialiser, provided nothing it
+    reads (locals, parameters) is assigned on any path from the definition to this use — so the initialiser still
+    describes the current state at the use (flow-sensitive; `expand` is the flow-insensitive, stricter version)."""
+    x = strip_all_casts(ref)
+    if x.get("k") != "ref" or x.get("dk") != "local" or not fn.cfg_raw:
+        return None
+    ds = local_defs(fn).get(x["decl"], [])
+    if len(ds) != 1:
+        return None
+    init = ds[0]
+    rd = {y["decl"] for y in walk(init) if y.get("k") == "ref" and y.get("dk") in ("local", "param")}
+    if not rd:
+        return init
+    cfg = fn.cfg
+    dn = next((n for n in fn.nodes() if n.get("k") == "decl" and any(v.get("decl") == x["decl"] for v in n.get("vars", []))), None)
+    if dn is None:
+        return None
+    db, ub = cfg.block_for(dn), cfg.block_for(x)
+    if db is None or ub is None or x.get("id") not in cfg.pos_of or dn.get("id") not in cfg.pos_of:
+        return None
+    writes = []
+    for n in fn.nodes():
+        if n.get("k") in ("assign", "cassign") and lvalue_root(n["l"]) in rd:
+            writes.append(n)
+        elif n.get("k") == "un" and n.get("op") in ("pre++", "post++", "pre--", "post--") and lvalue_root(n["e"]) in rd:
+            writes.append(n)
+    if not writes:
+        return init
+    # blocks on a path from the definition to the use that does not pass the definition again
+    fwd = set()
+    st = [s2 for s2 in cfg.succ[db] if s2 is not None] if db != ub or cfg.pos_of[x["id"]] < cfg.pos_of[dn["id"]] else []
+    while st:
+        b = st.pop()
+        if b in fwd or b == db:
+            continue
+        fwd.add(b)
+        if b == ub:
+            continue
+        st.extend(s2 for s2 in cfg.succ[b] if s2 is not None)
+    # keep only those that can still reach the use
+    can = {ub}
+    changed = True
+    while changed:
+        changed = False
+        for b in fwd:
+            if b not in can and any(s2 in can for s2 in cfg.succ[b] if s2 is not None):
+                can.add(b)
+                changed = True
+    between = (fwd & can) - {ub}
+    for w in writes:
+        wb = cfg.block_for(w)
+        wid = min((y["id"] for y in walk(w) if y.get("id") in cfg.pos_of), default=None)
+        wp = cfg.pos_of.get(w.get("id"), cfg.pos_of.get(wid, 0))
+        if wb in between:
+            return None
+        if wb == db and wp > cfg.pos_of[dn["id"]] and (db != ub or wp < cfg.pos_of[x["id"]]):
+            return None
+        if wb == ub and db != ub and wp < cfg.pos_of[x["id"]]:
+            return None
+    return init
+
+
 def conjuncts(e, polarity=True, fn=None, _depth=0):
     """Atoms that must hold when expression e evaluates to `polarity`.  With fn given, boolean locals
     with one stable definition and one-line in-repo predicates are looked through."""
@@ -1115,6 +1178,9 @@ def conjuncts(e, polarity=True, fn=None, _depth=0):
         if x.get("k") == "ref" and x.get("dk") == "local" and (x.get("t") or {}).get("k") == "bool":
             y = expand(fn, x, 1)
             if y is not x and strip_all_casts(y).get("k") != "ref":
+                return [atom_of(e, polarity)] + conjuncts(y, polarity, fn, _depth + 1)
+            y = current_definition(fn, x)  # e.g. `const bool ok = validate(cursor, left);` tested before the cursor moves
+            if y is not None:
                 return [atom_of(e, polarity)] + conjuncts(y, polarity, fn, _depth + 1)
         if x.get("k") == "call":
             y = inline_predicate(getattr(fn, "fb", None), x)
